@@ -529,3 +529,148 @@ func vSameDecoded(gmn MesgNum, got, orig reflect.Value, skip []string) {
 		}
 	}
 }
+
+// vCheckUnset asserts that every field of the record's definition that the
+// message did not set carries the invalid value (strings: empty).
+func vCheckUnset(out []byte, r vRec, sets []vSet) {
+	off := r.off
+	for _, f := range r.def.fields {
+		isSet := false
+		for _, s := range sets {
+			if s.num == f.num && !s.unset {
+				isSet = true
+			}
+		}
+		if !isSet {
+			es := f.btype.Size()
+			inv := vInvalidBits(f.btype)
+			if pf, ok := getField(r.def.gmn, f.num); ok && (pf.t.Kind() == types.TimeUTC || pf.t.Kind() == types.TimeLocal) {
+				// the library's invalid time is the FIT epoch itself: an
+				// unset time field is the value 0 on the wire
+				inv = 0
+			}
+			if es < 8 {
+				inv &= 1<<uint(8*es) - 1
+			}
+			ok := true
+			if f.btype == types.BaseString {
+				ok = out[off] == 0
+			} else {
+				for i := 0; i+es <= int(f.size); i += es {
+					if vWire(out[off+i:], es, r.def.big) != inv {
+						ok = false
+					}
+				}
+			}
+			vAssert(ok, "C05.wire.unset-field-invalid")
+		}
+		off += int(f.size)
+	}
+}
+
+// H05m: several messages in two slice slots of one container (container
+// field indexes sa < sb): slot A holds three messages (the first two set
+// struct field fi, the third sets fj instead: union definition with a field
+// the last message lacks), slot B holds one message with field fk set.
+func H05m() {
+	ti, sa, sb := vParam("ti"), vParam("sa"), vParam("sb")
+	big, crc := vParam("big") == 1, vParam("crc") == 1
+	f, err := NewFile(FileType(vFileTypes[ti]), NewHeader(V20, crc))
+	vAssert(err == nil, "C05.harness.newfile")
+	cont := vContainer(f, ti)
+	fa, fb := cont.Field(sa), cont.Field(sb)
+	gA := getGlobalMesgNum(fa.Type().Elem().Elem())
+	gB := getGlobalMesgNum(fb.Type().Elem().Elem())
+	nfA := getMesgAllInvalid(gA).NumField()
+	nfB := getMesgAllInvalid(gB).NumField()
+	fi, fj, fk := vParam("fi")%nfA, vParam("fj")%nfA, vParam("fk")%nfB
+	var msgsA [3]reflect.Value
+	var setsA [3][]vSet
+	sl := reflect.MakeSlice(fa.Type(), 3, 3)
+	for i := 0; i < 3; i++ {
+		msgsA[i] = getMesgAllInvalid(gA)
+		idx := fi
+		if i == 2 {
+			idx = fj
+		}
+		setsA[i] = []vSet{vSetField(msgsA[i], gA, idx, true)}
+		sl.Index(i).Set(msgsA[i].Addr())
+	}
+	fa.Set(sl)
+	msgB := getMesgAllInvalid(gB)
+	setsB := []vSet{vSetField(msgB, gB, fk, true)}
+	slb := reflect.MakeSlice(fb.Type(), 1, 1)
+	slb.Index(0).Set(msgB.Addr())
+	fb.Set(slb)
+	for _, ss := range [][]vSet{setsA[0], setsA[1], setsA[2], setsB} {
+		for _, s := range ss {
+			if s.strArray {
+				vReached("string-array")
+				vReached("end")
+				return
+			}
+		}
+	}
+	var w bytes.Buffer
+	var order binary.ByteOrder = binary.LittleEndian
+	if big {
+		order = binary.BigEndian
+	}
+	err = Encode(&w, f, order)
+	vAssert(err == nil, "C05.encode.succeeds")
+	if err != nil {
+		vReached("end")
+		return
+	}
+	out := w.Bytes()
+	hdrSize := 12
+	if crc {
+		hdrSize = 14
+	}
+	recs := vWalk(out, hdrSize)
+	var ra, rb []vRec
+	for _, r := range recs {
+		if r.def.gmn == gA {
+			ra = append(ra, r)
+		} else if r.def.gmn == gB {
+			rb = append(rb, r)
+		} else {
+			vAssert(r.def.gmn == MesgNumFileId, "C05.multi.no-other-records")
+		}
+	}
+	if gA == gB {
+		vAssert(len(ra) == 4, "C05.multi.record-counts")
+	} else {
+		vAssert(len(ra) == 3 && len(rb) == 1, "C05.multi.record-counts")
+		if len(ra) == 3 && len(rb) == 1 {
+			for i := 0; i < 3; i++ {
+				for _, s := range setsA[i] {
+					vCheckWire(out, ra[i], s)
+				}
+				vCheckUnset(out, ra[i], setsA[i])
+			}
+			for _, s := range setsB {
+				vCheckWire(out, rb[0], s)
+			}
+			vCheckUnset(out, rb[0], setsB)
+		}
+	}
+	vAssert(CheckIntegrity(bytes.NewReader(out), false) == nil, "C04.encode-output-passes-checkintegrity")
+	vReached("encoded-multi")
+	// round trip
+	g, derr := Decode(bytes.NewReader(out))
+	vAssert(derr == nil && g != nil, "C06.decode.succeeds")
+	if derr == nil && g != nil && gA != gB {
+		gc := vContainer(g, ti)
+		ga, gb := gc.Field(sa), gc.Field(sb)
+		vAssert(ga.Len() == 3 && gb.Len() == 1, "C06.message-count")
+		if ga.Len() == 3 && gb.Len() == 1 {
+			for i := 0; i < 3; i++ {
+				vSameDecoded(gA, ga.Index(i).Elem(), msgsA[i], vComponentDests(msgsA[i].Type().Name()))
+			}
+			vSameDecoded(gB, gb.Index(0).Elem(), msgB, vComponentDests(msgB.Type().Name()))
+		}
+	}
+	vReached("roundtrip-multi")
+	vReached("end")
+}
